@@ -373,6 +373,9 @@ func (r *vkRun) vkEffective(step map[string]interface{}) map[string]interface{} 
 		recs = append(recs, map[string]interface{}{"ep": float64(ep), "val": sr["val"], "key": sr["key"]})
 	}
 	out["recs"] = recs
+	if sk, ok := step["skip"]; ok {
+		out["skip"] = sk
+	}
 	return out
 }
 
@@ -400,9 +403,21 @@ func (r *vkRun) exec(in map[string]interface{}) (step map[string]interface{}, ob
 		}
 	case "AppendSet":
 		// replicated path: the message set carries offsets and epochs
-		ms, _, e2 := newMessageSetFromProto(r.l.NewestOffset()+1, 0, vkMsgs(step), false)
-		if e2 != nil {
-			panic(e2)
+		// step["skip"][i] offsets are left out in front of record i: the message set of a leader
+		// whose log was compacted (one single-message set per record, concatenated)
+		var ms []byte
+		off := r.l.NewestOffset() + 1
+		skips, _ := step["skip"].([]interface{})
+		for i, m := range vkMsgs(step) {
+			if i < len(skips) {
+				off += int64(skips[i].(float64))
+			}
+			one, _, e2 := newMessageSetFromProto(off, 0, []*Message{m}, false)
+			if e2 != nil {
+				panic(e2)
+			}
+			ms = append(ms, one...)
+			off++
 		}
 		var offs []int64
 		offs, err = r.l.AppendMessageSet(ms)
